@@ -28,7 +28,7 @@ def gen_cases(tier, seed):
     out = []
     for i in range(n):
         s = env.seed_for(seed, ID, tier, i)
-        r = random.Random(s)
+        r = random.Random(env.seed_for(s, "descriptor"))  # independent of the stream run_case derives from the same seed
         mode = r.choice(["plain", "plain", "registry"])
         ncalls = r.randint(1, 25 if tier == "quick" else 60)
         W = r.choice([1, 2, 4, 8, 16])
